@@ -61,13 +61,22 @@ class Ctx:
         return self.tier == "thorough"
 
     # -- recording ---------------------------------------------------------
+    def _trace(self, ob):
+        if os.environ.get("PTSTAT_TRACE"):
+            now = time.time()
+            last = getattr(self, "_tlast", now)
+            self._tlast = now
+            print(f"  [{now - last:6.2f}s] {'ok  ' if ob.ok else 'FAIL'} {ob.rule} {ob.key}" + ("" if ob.ok else f" :: {ob.msg[:300]}"), flush=True)
+
     def ok(self, rule, key, msg="", site="", sample=None, nontrivial=True):
         self.obs.append(Ob(rule, key, True, msg, site, None, nontrivial))
+        self._trace(self.obs[-1])
         if sample is not None and len(self.samples) < 40:
             self.samples.append({"rule": rule, "instance": key, "detail": sample})
 
     def fail(self, rule, key, msg, site="", witness=None):
         self.obs.append(Ob(rule, key, False, msg, site, witness))
+        self._trace(self.obs[-1])
 
     def check(self, cond, rule, key, msg="", site="", witness=None, sample=None):
         if cond:
